@@ -38,7 +38,9 @@ EXPLANATION = (
     "frame_offset + number of end-of-frame markers consumed (inductive check with a ghost counter), "
     "store the caller's parameters / the set entry with the caller's p3, store nothing for markers "
     "and leave at the end marker (R3); tdma_sched_execute runs the current bucket's items 0..n-1 of "
-    "the sorted sequence with their own (p1,p2,p3) and empties that bucket on every non-error return "
+    "the sorted sequence with their own (p1,p2,p3) -- the loop's upper end is evaluated for every fill level "
+    "0..ARRAY_SIZE(item), through clamping/min helpers (helper results are ?: terms over their branch conditions) "
+    "-- and empties that bucket on every non-error return "
     "(R4); the sort helper initialises the full identity sequence and exchanges when the earlier "
     "element's prio is greater, comparing prio only (R5); the priority parameter stored by tdma_schedule, the "
     "item field prio, every temporary and every integral conversion up to the two operands of the sort's "
@@ -222,6 +224,55 @@ def item_slot(lv):
 
 def strip_const(qt):
     return (qt or "").replace("const ", "").replace("volatile ", "").strip()
+
+
+class Unknown(Exception):
+    pass
+
+
+def eval_term(t, leaf):
+    """Integer value of a term; `leaf(t)` gives the value of a load / symbol or None.  Raises Unknown for
+    anything that is not arithmetic, comparison, boolean connective or ?: over evaluable leaves."""
+    if not isinstance(t, tuple):
+        raise Unknown()
+    k = t[0]
+    if k == "c":
+        return t[1]
+    v = leaf(t)
+    if v is not None:
+        return v
+    if k in ("+", "*", "&", "|", "^"):
+        vals = [eval_term(x, leaf) for x in t[1:]]
+        r = vals[0]
+        for x in vals[1:]:
+            r = r + x if k == "+" else r * x if k == "*" else r & x if k == "&" else r | x if k == "|" else r ^ x
+        return r
+    if k in ("mod", "div"):
+        x, y = eval_term(t[1], leaf), eval_term(t[2], leaf)
+        if x < 0 or y <= 0:
+            raise Unknown()
+        return x % y if k == "mod" else x // y
+    if k in ("<<", ">>"):
+        x, y = eval_term(t[1], leaf), eval_term(t[2], leaf)
+        if x < 0 or not 0 <= y < 32:
+            raise Unknown()
+        return x << y if k == "<<" else x >> y
+    if k == "cmp":
+        x, y = eval_term(t[2], leaf), eval_term(t[3], leaf)
+        if t[1] == "<":
+            return int(x < y)
+        if t[1] == "==":
+            return int(x == y)
+        raise Unknown()
+    if k == "not":
+        return int(eval_term(t[1], leaf) == 0)
+    if k == "and":
+        return int(eval_term(t[1], leaf) != 0 and eval_term(t[2], leaf) != 0)
+    if k == "or":
+        return int(eval_term(t[1], leaf) != 0 or eval_term(t[2], leaf) != 0)
+    if k == "ite":
+        return eval_term(t[2], leaf) if eval_term(t[1], leaf) != 0 else eval_term(t[3], leaf)
+    raise Unknown()
 
 
 # ------------------------------------------------------- per-function engine
@@ -743,14 +794,72 @@ class Fn:
             return None
         return grp
 
+    def decision(self):
+        """The result of a loop-free function as ONE term over its entry state: the returned values of its
+        return statements joined by ?: over the branch conditions that select them (`if (c) return a; return b;`
+        -> c ? a : b).  None when the function loops, falls off its end, switches, or a value is not a term
+        over the entry state."""
+        if hasattr(self, "_decision"):
+            return self._decision
+        self._decision = None
+        g = self.g
+        rets = {r["node"].id: r["val"] for r in self.rets}
+        memo, onpath = {}, set()
+
+        def cond_term(c):
+            save = (self.st, self.cur, self.rec, self.k)
+            self.st, self.cur, self.rec, self.k = dict(self.inn[c.id]), c, False, 0
+            try:
+                return self.rval(c.cond)
+            finally:
+                self.st, self.cur, self.rec, self.k = save
+
+        def go(n):
+            if n.id in memo:
+                return memo[n.id]
+            if n.id in onpath or n is g.exit or n.id not in self.inn:
+                raise Unknown()
+            onpath.add(n.id)
+            try:
+                if n.id in rets:
+                    r = rets[n.id]
+                    if r is None:
+                        raise Unknown()
+                elif n.kind == "cond":
+                    succ = {}
+                    for (s, l) in n.succ:
+                        if l not in (True, False) or l in succ:
+                            raise Unknown()
+                        succ[l] = s
+                    if getattr(n, "cond", None) is None or not succ:
+                        raise Unknown()
+                    if len(succ) == 1:
+                        r = go(next(iter(succ.values())))
+                    else:
+                        r = X.ite(cond_term(n), go(succ[True]), go(succ[False]))
+                elif n.kind in ("stmt", "entry", "label") and len(n.succ) == 1:
+                    r = go(n.succ[0][0])
+                else:
+                    raise Unknown()
+            finally:
+                onpath.discard(n.id)
+            memo[n.id] = r
+            return r
+        try:
+            self._decision = go(g.entry)
+        except (Unknown, AnalysisError):
+            self._decision = None
+        return self._decision
+
     def apply_summary(self, sub, args, res):
         writes = {s["grp"] for s in sub.stores}
         if sub.world:
             writes.add("WORLD")
         ret = None
         vals = {r["val"] for r in sub.rets}
-        if len(vals) == 1 and not writes:
-            v = next(iter(vals))
+        if not writes and (len(vals) == 1 or sub.decision() is not None):
+            # one returned value, or several selected by branch conditions (clamp / min / max / sign helpers)
+            v = next(iter(vals)) if len(vals) == 1 else sub.decision()
             if v is not None and not any(isinstance(x, tuple) and x[0] in ("phi", "res", "undef", "mv")
                                          for x in subterms(v)):
                 def leaf(t):
@@ -1529,10 +1638,50 @@ def r4_execute(a):
                 bad.append("loop continues with position %s" % show(v))
             if not inside and v != C0:
                 bad.append("starts at position %s" % show(v))
-        bound = [at for at in fn.guard_atoms(ic["node"])
-                 if at[0] == "<" and at[3] and at[1] == POS and at[2][0] == "ld" and at[2][1] == ("fld", B, "num_items")]
-        if not bound:
-            bad.append("position not bounded by the bucket's num_items")
+        # Upper end of the executed positions, decided by value: every guard of the callback that limits the
+        # position (pos < T, pos <= T, pos != T for a position counting up from 0) gives a bound term T; T is
+        # evaluated for each fill level n = 0 .. ARRAY_SIZE(item) of the executed bucket (the range R1 establishes
+        # for num_items: incremented only below the capacity, otherwise reset to 0).  The positions executed for
+        # fill level n are 0 .. min(T)(n)-1 and must be 0 .. n-1.  How T is written -- the field itself, a cached
+        # copy, a clamping / min helper or ?: that is the identity on 0..capacity -- is irrelevant.
+        NUM = ("fld", B, "num_items")
+        bounds = []
+        for at in fn.guard_atoms(ic["node"]):
+            if at[0] == "<" and at[3] and at[1] == POS:
+                bounds.append(at[2])                                   # pos < T
+            elif at[0] == "<" and not at[3] and at[2] == POS:
+                bounds.append(X.add(at[1], C1))                        # !(T < pos)  ==  pos < T + 1
+            elif at[0] == "==" and not at[3] and POS in (at[1], at[2]) and at[1] != at[2]:
+                bounds.append(at[2] if at[1] == POS else at[1])        # pos != T, pos counts up from 0
+
+        def fill_level(n):
+            def leaf(t):
+                if t[0] == "ld" and t[1] == NUM:
+                    return n
+                return None
+            return leaf
+        table, opaque = [], []
+        for T in bounds:
+            try:
+                table.append((T, [eval_term(T, fill_level(n)) for n in range(a.NCB + 1)]))
+            except Unknown:
+                opaque.append(T)
+        eff = [min(row[n] for (_T, row) in table) for n in range(a.NCB + 1)] if table else None
+        short = [n for n in range(a.NCB + 1) if eff is not None and eff[n] < n]
+        if short:
+            n = short[0]
+            bad.append("only positions 0 .. %d are executed when the bucket holds %d items (bound %s)" % (
+                eff[n] - 1, n, " / ".join(sorted(show(T) for (T, _r) in table))))
+        elif opaque or eff is None:
+            raise AnalysisError("tdma_sched_execute(): the executed positions are limited by %s, which cannot be evaluated "
+                                "for the fill levels 0..%d of the executed bucket -- unclassifiable" % (
+                                    " / ".join(sorted(show(T) for T in opaque)) or "no comparison of the position", a.NCB))
+        else:
+            long_ = [n for n in range(a.NCB + 1) if eff[n] > n]
+            if long_:
+                n = long_[0]
+                bad.append("positions 0 .. %d are executed when the bucket holds only %d items (bound %s)" % (
+                    eff[n] - 1, n, " / ".join(sorted(show(T) for (T, _r) in table))))
         okt = "positions 0 .. num_items-1, each once"
         a.ob(R, name, "every item of the bucket is executed once: positions 0 .. num_items-1 of the priority sequence",
              okt, "; ".join(sorted(set(bad))) if bad else okt, not bad, h.ast)
@@ -2089,10 +2238,6 @@ def r6_prio_width(a, sort):
 
 CUR_LV = ("fld", SCHED, "cur_bucket")
 REPLAY_STEPS = 4000
-
-
-class Unknown(Exception):
-    pass
 
 
 def concretise(t, cur):
